@@ -754,8 +754,11 @@ impl LatestBlockFilterHashes {
             }
         }
         // Update block filter hashes.
+        // All received hashes could have been known already (a late or repeated response).
         let index = start_index_for_new + self.inner[start_index_for_old..].len();
-        self.inner.extend_from_slice(&block_filter_hashes[index..]);
+        if index < block_filter_hashes.len() {
+            self.inner.extend_from_slice(&block_filter_hashes[index..]);
+        }
         if end_number < last_proved_number {
             Ok(Some(end_number + 1))
         } else {
